@@ -15,6 +15,18 @@ checks = {
     note="Trusted: as C16, plus Spec/Exec.lean (the RV32IM reading: div-by-zero and undefined label are errors, ret halts), Model/Roles.lean (ISA role of each Go field, cross-checked per case against the text the Go parser accepted), Model/Rat.lean for the rename-table reads inside registerRead (tied by C15). Search: every generated single-instruction case is run on the real code (risc.Parse + Run + the four declaration methods) and compared with both the generated definitions (tie) and Spec.exec (property); a difference is reported with the instruction text and operand values as replay.",
     technique="Lean 4 proof over a model regenerated from the Go source (translator); differential Go vs Lean spec on boundary lattice + random as correspondence and search",
     design="§4 C02"),
+ "C13": dict(
+    category="proof",
+    text="24 theorems (Props/C13.lean) over a hand-written Lean model that keeps the Go representation (MRU-first line list; LRU-first key order), for ALL geometries (line length >= 1, any number of lines) and ALL operation histories within the type's non-overlap contract (an explicit decidable hypothesis, with a proved counterexample when it is dropped): a read returns the last write since the line's insertion, presence = coverage by a resident line, PushLine displaces the least-recently-used line AND reports that line's contents, capacity is restored after the reported victim is removed (both push APIs), sub-line extraction, and the same recency laws for the key-value LRU (put on a full map removes the least recently touched key; get/find/put move to most-recent; Find returns the least recent member).",
+    note="Trusted: Lean kernel, the three standard axioms, the hand model Model/LineCache.lean + Model/KvLru.lean (tied to proc/comp/cache.go and common/cache/lru.go by the lock-step correspondence stream on every run: geometries (2,6),(4,4),(4,16),(64,1024),(128,4096) and random ones, slice-aliasing probes, bounded-exhaustive short histories), the independent Python reference that judges the Go outputs (byte->value map + recency stamps), harness/driver. int32 address overflow is outside the model.",
+    technique="Lean 4 proof (invariant + refinement to a history-defined reference) on a hand model; lock-step correspondence Go vs model + independent reference oracle as tie and search",
+    design="§4 C13"),
+ "C14": dict(
+    category="proof",
+    text="31 theorems (Props/C14.lean) over hand-written Lean models of SimpleBus, BufferedBus, Queue and Broadcast, for ALL capacities and ALL operation histories (items carry the index of their Add as unique id): conservation (added = returned + inside + cleaned, as multisets; at most one delivery per id), FIFO for Get and order-preservation under Pick, latency (an item added in cycle c is not delivered before a Connect(c') with c' >= c+1; SimpleBus: not before the second Get), capacity under polite producers, Clean/Flush empties and forgets. The clause `a reverted item is the next one delivered` is FALSE of the code when the visible queue is non-empty: kept as Full_C14_revert_next with a proved refutation and a proved partial version (queue empty) — recorded known finding KF-C14-revert (dead API).",
+    note="Trusted: Lean kernel, the three standard axioms, the hand model Model/Bus.lean (tied to proc/comp/bus.go, queue.go, broadcast.go by the lock-step stream on every run: capacities 1..4 x 1..4, ~70% polite producers, plus bounded-exhaustive histories up to length 6-9), the independent Python oracle on id lists, harness/driver. Not modelled: the goroutine/channel inside Queue.Iterator (thorough runs the stream under -race), Go int overflow of cycle+1.",
+    technique="Lean 4 proof by induction over operation histories on a hand model; lock-step correspondence + bounded-exhaustive histories + independent oracle as tie and search",
+    design="§4 C14"),
 }
 allp = [f"C{i:02d}" for i in range(1, 17)]
 m = {
